@@ -135,12 +135,109 @@ def case_job(arg):
     return rep
 
 
+def _retry_worker(arg):
+    """Runs one retry scenario in a forked child: returns what every attempt observed, the execution log and the store state."""
+    import os
+    import dds
+    from dds import _api
+    from vp import vlog
+    from vp.capstore import CapturingStore
+    from checks import scen10
+
+    kind, store, k, cls, n, root = arg
+    dds.accept_module(scen10)
+    if store == "memory":
+        dds.set_store("memory")
+    else:
+        dds.set_store("local", internal_dir=os.path.join(root, "i"), data_dir=os.path.join(root, "d"), cache_objects=(10 if store == "local_lru" else None))
+    cs = CapturingStore(_api._store_var)
+    dds.set_store(cs)
+    vlog.clear()
+    out = {}
+    try:
+        if kind == "twice":
+            out["result"] = ("ok", dds.eval(scen10.p_twice, k, cls, n))
+        elif kind == "df_twice":
+            out["result"] = ("ok", dds.eval(scen10.p_df_twice, n))
+        else:
+            out["result"] = ("ok", dds.eval(scen10.p_retry, k, cls, n))
+    except BaseException as e:  # noqa
+        out["result"] = ("exc", type(e).__name__, str(e)[:300])
+    out["log"] = vlog.snapshot()
+    out["stored"] = len(cs.stored_keys())
+    out["loads"] = {}
+    for path in ("/c10r/always", "/c10r/good", "/c10r/flaky", "/c10r/df_fails"):
+        try:
+            out["loads"][path] = ("ok", dds.load(path))
+        except BaseException as e:  # noqa
+            out["loads"][path] = ("exc", type(e).__name__)
+    return out
+
+
+def retry_job(arg):
+    kind, store, k, cls, n = arg
+    rep = core.Report("C10")
+    rep.evaluations = 1
+    case = {"retry": list(arg)}
+    desc = "%s scenario (exception %s, %d attempts/failures, store %s)" % (kind, cls, n, store)
+    with core.Scratch("vp_c10r_") as td:
+        o = core.fork_call(_retry_worker, (kind, store, k, cls, n, td), timeout=300)
+    if isinstance(o, core.JobFailed):
+        rep.inconclusive.append("retry worker: %r" % (o,))
+        return rep
+
+    def bad(what, mech):
+        rep.violate("%s: %s" % (desc, what), case, mechanism=mech)
+
+    if o["result"][0] != "ok":
+        bad("the evaluation raised %s(%s) although the pipeline catches every exception of its kept calls" % o["result"][1:3], "retry-evaluation-raised")
+        return rep
+    res = o["result"][1]
+    rep.count("retry_scenarios")
+    if kind in ("twice", "df_twice"):
+        attempts, fname, path = (res[0], "always_fails", "/c10r/always") if kind == "twice" else (res, "df_fails", "/c10r/df_fails")
+        for i, a in enumerate(attempts):
+            rep.count("caught_attempts")
+            if a[0] != "raised-same-object":
+                bad("attempt %d of the always-failing kept call %s observed %r instead of the exception raised by the function" % (i + 1, fname, a[:2] if a[0] != "returned" else ("returned", repr(a[1])[:60])), "failure-swallowed-on-retry")
+                break
+        if o["log"].count(fname) != len(attempts):
+            bad("%s ran %d times for %d attempts" % (fname, o["log"].count(fname), len(attempts)), "failing-call-not-rerun")
+        # dds commits every path found by the analysis when the evaluation as a whole succeeds, so the path of the call that
+        # never completed may dangle (load raises; the memory store answers None for a missing blob): only a value is refuted
+        rep.bump("dangling_path_load", o["loads"][path][0] if o["loads"][path][0] == "exc" else repr(o["loads"][path][1])[:20])
+        if o["loads"][path][0] != "exc" and o["loads"][path][1] is not None:
+            bad("path %s is loadable (%r) although its function never completed" % (path, repr(o["loads"][path][1])[:60]), "failed-node-cached")
+        if kind == "twice":
+            if res[1] != ("value-of-good", k) or o["loads"]["/c10r/good"] != ("ok", ("value-of-good", k)):
+                bad("the succeeding sibling returned %r / loads %r" % (res[1], o["loads"]["/c10r/good"]), "followup-wrong")
+            if o["stored"] != 1:
+                bad("%d blobs stored, expected exactly the succeeding sibling's" % o["stored"], "unknown-blob-stored")
+        elif o["stored"] != 0:
+            bad("%d blobs stored by an evaluation in which nothing completed" % o["stored"], "unknown-blob-stored")
+    else:
+        nfail = n
+        want = [("raised-same-object", cls if cls in ("ValueError", "KeyError", "KeyboardInterrupt") else cls)] * nfail + [("returned", ("value-of-flaky", k))] * 2
+        got = [(a[0], a[1]) for a in res]
+        for i, (w, g) in enumerate(zip(want, got)):
+            rep.count("caught_attempts")
+            if w[0] != g[0] or (w[0] == "returned" and w[1] != g[1]):
+                bad("attempt %d of a kept call failing its first %d executions observed %r, expected %r" % (i + 1, nfail, (g[0], repr(g[1])[:60]), w[0]), "failure-swallowed-on-retry" if g[0] == "returned" else "retry-wrong")
+                break
+        if o["log"].count("flaky") != nfail + 1:
+            bad("flaky ran %d times, expected %d failures + 1 success (the 2nd success served from the store)" % (o["log"].count("flaky"), nfail), "failing-call-not-rerun")
+        if o["loads"]["/c10r/flaky"] != ("ok", ("value-of-flaky", k)):
+            bad("path /c10r/flaky loads %r" % (o["loads"]["/c10r/flaky"],), "followup-wrong")
+    rep.nontriv(("c10retry",) + tuple(arg))
+    return rep
+
+
 def run(tier, seed):
     rep = core.Report("C10")
     rng = core.rng_for(seed, "c10")
     rep.rule = (
         "programs (matrix skeletons, random DAG programs) x every function reachable from the entry chosen as the failing one x exception classes %r x failing before / after its sub-calls x stores "
-        "memory, local, local+cache; history in one process: populate (v0) -> failing v1 -> failing v1 again -> repaired v2 (optionally in a new process) -> a different pipeline -> v2 again. "
+        "memory, local, local+cache; history in one process: populate (v0) -> failing v1 -> failing v1 again -> repaired v2 (optionally in a new process) -> a different pipeline -> v2 again; plus retry scenarios: one evaluation whose pipeline catches the exception of a kept call and calls it again (always failing x n attempts; failing the first n executions then succeeding), checked per attempt. "
         "distinct_nontrivial = distinct (program, failing function, exception class, position, store) cases fully observed." % (EXC,)
     )
     programs = [progs.base_program("c10b0"), progs.base_program("c10b1", layout="one", entry_data=True)]
@@ -162,14 +259,22 @@ def run(tier, seed):
                 store = ["local", "memory", "local_lru"][(n + ci) % 3]
                 n += 1
                 jobs.append((p0, fid, cls, when, store, n % 4 == 0, other, n % 2 == 0))
-    results = core.fork_map(case_job, jobs, timeout=900)
-    for j, r in zip(jobs, results):
+    rjobs = []
+    for store in ("local", "memory", "local_lru"):
+        for ci, cls in enumerate(("ValueError", "KeyError", "CustomError", "KeyboardInterrupt", "CustomBase")):
+            k = 10 * ci + rng.randrange(9)
+            rjobs.append(("twice", store, k, cls, 2 + ci % 3))
+            rjobs.append(("retry", store, k, cls, 1 + ci % 3))
+        rjobs.append(("df_twice", store, 0, "ValueError", 3))
+    results = core.fork_map(lambda j: retry_job(j[1]) if j[0] == "r" else case_job(j[1]), [("c", j) for j in jobs] + [("r", j) for j in rjobs], timeout=900)
+    for j, r in zip(jobs + [None] * len(rjobs), results):
         if isinstance(r, core.JobFailed):
             rep.inconclusive.append("case: %r" % (r,))
             continue
         rep.merge(r)
-        rep.bump("exception_class", j[2])
-        rep.bump("store", j[4])
+        if j is not None:
+            rep.bump("exception_class", j[2])
+            rep.bump("store", j[4])
     rep.sample({"failing_function": jobs[0][0]["fns"][jobs[0][1]]["name"], "exception": jobs[0][2], "when": jobs[0][3], "store": jobs[0][4]})
     if not rep.counters.get("exception_identity_confirmed"):
         rep.inconclusive.append("no propagated exception was observed")
@@ -179,6 +284,9 @@ def run(tier, seed):
 
 def replay(payload):
     rep = core.Report("C10")
+    if "retry" in payload["case"]:
+        rep.merge(retry_job(tuple(payload["case"]["retry"])))
+        return rep
     c = payload["case"]["case"]
     v0, v1, v2, other = c["versions"]
     fid = [f for f in v1["fns"] if v1["fns"][f].get("fail")][0]
